@@ -190,7 +190,12 @@ func (e *Env) DrawSig(t *rapid.T, minParams, maxParams, maxResults int, modes []
 		for _, r := range s.Results {
 			collect(r)
 		}
-		if len(names) > 0 {
+		if rapid.IntRange(0, 3).Draw(t, "shadow-any") == 0 {
+			// the empty interface is printed as any: the last parameter gets that type and the first one that name
+			s.Params[n-1].Type = &Type{Kind: Iface, Name: "any"} // spelled any in the user's source
+			s.Params[0].Name = "any"
+			s.Mode = "shadowing"
+		} else if len(names) > 0 {
 			s.Params[0].Name = names[rapid.IntRange(0, len(names)-1).Draw(t, "shadowed")]
 			s.Mode = "shadowing"
 		}
